@@ -9,13 +9,13 @@ from mc import c_nets, c_solvers as cs
 PROPERTY = "C06"
 LEVEL = "exploration"
 META = {
-    "text": "Every network reachable from 8 base nets (radial, ring+chord, 2-winding and 3-winding transformer, two radial islands, radial with one loop, two ring islands, parallel lines) by <=1 (thorough <=2) deviations is solved by the default Newton-Raphson and then by every element of the full product algorithm {nr, iwamoto_nr, bfsw, gs, fdbx, fdxb} x numba {on, off} x lightsim2grid {off, on} x init {flat, dc, results}; whenever an alternative returns, its complex bus voltages and all branch / slack / generator powers are compared with the default solution, and the backward/forward sweep must not die with an internal error on a radial or weakly meshed net with one slack per island.",
+    "text": "Every network reachable from 10 base nets (radial, ring+chord, 2-winding and 3-winding transformer, two radial islands, radial with one loop, two ring islands, parallel lines, phase shifting transformer in a second island, two generators with staggered reactive limits) by <=1 (thorough <=2) deviations is solved by the default Newton-Raphson and then by every element of the full product algorithm {nr, iwamoto_nr, bfsw, gs, fdbx, fdxb} x numba {on, off} x lightsim2grid {off, on} x init {flat, dc, results} (x enforce_q_lims {off, on} on nets with generators); whenever an alternative returns, its complex bus voltages and all branch / slack / generator powers are compared with the default solution, and the backward/forward sweep must not die with an internal error on a radial or weakly meshed net with one slack per island.",
     "note": "Trusted: the default NR solution as reference (its own correctness is C01/C02). Documented refusals (NotImplementedError, LoadflowNotConverged of gs/fd within max_iteration) are counted as outcomes; a flat start behind a phase shifting transformer that lands on another exact root of the reference's own equations is counted, not judged. ZIP loads, FACTS and loadings with |dV| > 10 % are outside the alphabet; weakly meshed means <= 3 independent loops per island.",
     "technique": "bounded exhaustive input enumeration (deviation-bounded) crossed with a full configuration product, differential oracle against the default solver with family tolerances",
     "design_ref": "DESIGN.md §3 E1, §4 C06",
 }
 
-BASES = ["R3", "M4", "T3", "W3", "I2", "L1", "MI2", "PL"]
+BASES = ["R3", "M4", "T3", "W3", "I2", "L1", "MI2", "PL", "TS", "G2"]
 REFUSALS = ("NotImplementedError", "LoadflowNotConverged", "UserWarning", "not_converged")
 MAX_LOOPS_WEAK = 3
 
@@ -23,19 +23,41 @@ MAX_LOOPS_WEAK = 3
 def menu(b):
     hot = c_nets.HOT[b][0]
     s = 20. if b == "M4" else 1.
+    other = [x for x in (1, 2, 3, 0) if x != hot][0] if b != "PL" else 1
     m = [["load", hot, 1.5 * s, 0.5 * s, "P", 1., True],
          ["sgen", hot, 0.8 * s, -0.2 * s, 1., True],
-         ["storage", hot, -0.5 * s, 0.1 * s, 0.5, True],
-         ["motor", hot, 0.5 * s, True],
+         # shunt dimension of the result routines (_get_numba_functions: any(GS), any(BS)): b only, g only, g+b, and
+         # pairs at two buses whose ratings cancel in total
+         ["shunt", hot, 0., -0.5 * s, 1, 1.0, True],
+         ["shunt", hot, 0.1 * s, 0., 1, 1.0, True],
          ["shunt", hot, 0.1 * s, -0.5 * s, 1, 1.0, True],
+         ["shunt_pair", other, hot, 0., 0.6 * s],
+         ["shunt_pair", other, hot, 0.2 * s, 0.],
          ["ward", hot, True],
          ["xward", hot, True],
          ["gen", hot, 1.0 * s, 1.01, "wide", False, True],
          ["gen", hot, 0.5 * s, 1.03, "none", False, True],
-         ["asym_load", hot],
+         ["gen", hot, 0.6 * s, 1.04, "tight", False, True],    # reactive limit binding under enforce_q_lims
          ["sn", 100.],
          ["ext_grid", hot, 1.0, 0., True],                  # second slack in the same island
          ["set", "ext_grid", 0, "bus", hot]]                # slack is not the first bus
+    if b == "TS":
+        m = [d for d in m if d[0] in ("load", "shunt_pair", "xward", "sn") or (d[0] == "gen" and d[4] != "none")]
+        m += [["set", "ext_grid", 1, "bus", 5], ["set", "ext_grid", 1, "bus", 4],       # slack on the LV side of the shifted trafo
+              ["set", "ext_grid", 1, "bus", 3],
+              ["set", "trafo", 0, "shift_degree", 30.], ["set", "trafo", 0, "shift_degree", -150.],
+              ["set", "trafo", 0, "shift_degree", 0.], ["set", "trafo", 0, "shift_degree", 180.],
+              ["set", "trafo", 0, "tap_pos", 2], ["set", "trafo", 0, "tap_side", "lv"],
+              ["trafo", 3, 4, {"shift_degree": 150.}], ["set", "ext_grid", 0, "in_service", False],
+              ["swapline", 2], ["set", "bus", 5, "in_service", False]]
+    if b == "G2":
+        m = [d for d in m if d[0] in ("load", "shunt", "sn") or (d[0] == "gen" and d[4] == "tight")][:5]
+        m += [["set", "gen", 0, "max_q_mvar", 60.], ["set", "gen", 1, "max_q_mvar", 60.],      # only one gen limited
+              ["set", "gen", 1, "max_q_mvar", 10.],                                           # both beyond the limit in the first pass
+              ["set", "gen", 0, "vm_pu", 0.96], ["set", "gen", 1, "vm_pu", 0.97],             # lower limit binding
+              ["set", "gen", 0, "in_service", False], ["set", "gen", 1, "bus", 2],            # one gen / two gens at one bus
+              ["set", "gen", 0, "min_q_mvar", 0.], ["set", "gen", 1, "p_mw", 40.],
+              ["line", 1, 3, 1, True]]
     if b in ("R3", "M4", "T3", "W3", "I2"):
         m += [d for d in na.structure_menu(b) if d[0] != "sn"]
     if b == "T3":
@@ -61,8 +83,9 @@ def run_case(case):
 
     def count(k):
         out["counts"][k] = out["counts"].get(k, 0) + 1
+    qlim = bool(case["configs"][0].get("qlim"))
     ref = copy.deepcopy(net0)
-    oc = na.run_pf(ref, {})
+    oc = na.run_pf(ref, {"enforce_q_lims": True} if qlim else {})
     out["n"] += 1
     if oc != "ok":
         count("reference_" + oc)
@@ -87,7 +110,8 @@ def run_case(case):
             scratch[c["init"] == "results"] = net
         out["n"] += 1
         count("alt_%s_%s" % (c["alg"], oc))
-        toks = ["alg=" + c["alg"], "numba=%s" % c["numba"], "ls2g=%s" % c["ls2g"], "init=" + c["init"]] + ttoks
+        toks = ["alg=" + c["alg"], "numba=%s" % c["numba"], "ls2g=%s" % c["ls2g"], "init=" + c["init"],
+                "qlim=%s" % qlim] + ttoks
         if oc == "ok":
             alt = cs.snapshot(net)
             bad = cs.compare(snap, alt, c["alg"])
@@ -121,9 +145,14 @@ def gen_cases(tier):
     k = 1 if tier == "quick" else 2
     for b in BASES:
         for devs in na.subsets(menu(b), k):
-            for alg in cs.ALGS:      # one case per (net, algorithm): 12 configurations each
-                cases.append({"base": b, "devs": [list(d) for d in devs],
-                              "configs": [c for c in cfgs if c["alg"] == alg]})
+            devs = [list(d) for d in devs]
+            # enforce_q_lims=True only changes anything when the net holds generators (gen / dcline): the q-limit half of the
+            # product is crossed with exactly those nets, reference = default NR with enforce_q_lims=True
+            has_gen = b == "G2" or any(d[0] in ("gen", "dcline") for d in devs)
+            for q in ([False, True] if has_gen else [False]):
+                for alg in cs.ALGS:      # one case per (net, enforce_q_lims, algorithm): 12 configurations each
+                    cases.append({"base": b, "devs": devs,
+                                  "configs": [c for c in cfgs if c["alg"] == alg and c["qlim"] == q]})
     return cases
 
 
@@ -134,10 +163,11 @@ def explore(tier, seed):
     cases = gen_cases(tier)
     k = 1 if tier == "quick" else 2
     rep.rule = ("E1 x full product: every subset of <=%d pairwise-compatible deviations from the per-base menus of %s, each "
-                "solved by default NR and by all 72 elements of algorithm x numba x lightsim2grid x init; distinct+non-trivial = "
+                "solved by default NR and by all 72 elements of algorithm x numba x lightsim2grid x init (nets holding generators additionally by the same 72 with enforce_q_lims=True against default NR with enforce_q_lims=True); distinct+non-trivial = "
                 "(net hash, configuration) pairs whose alternative run converged and was compared" % (k, BASES))
     rep.extra["bound_k"] = k
-    rep.extra["nets"] = len(cases) // len(cs.ALGS)
+    rep.extra["nets"] = len({core.dhash([c["base"], c["devs"]]) for c in cases})
+    rep.extra["nets_with_generators_crossed_with_enforce_q_lims"] = sum(1 for c in cases if c["configs"][0]["qlim"]) // len(cs.ALGS)
     rep.extra["configurations"] = len(cs.configs())
     rep.extra["tolerances"] = {"V_nr_family": cs.TOL_V["nr"], "V_other": cs.TOL_V["loose"], "S_abs_mva": cs.TOL_S_ABS,
                                "S_rel": cs.TOL_S_REL}
